@@ -1568,6 +1568,12 @@ class t2data(object):
                 if section in self._sections and not self.echo_extra_precision:
                     self._sections.remove(section)
             xpfile.close()
+        else:
+            # remove any old auxiliary file, which would otherwise be read
+            # in preference to the data in the main file:
+            from os.path import exists
+            from os import remove
+            if exists(self.extra_precision_filename): remove(self.extra_precision_filename)
 
     def read(self, filename = '', meshfilename = ''):
         """Reads data from file.  Mesh data can optionally be read from an
